@@ -10,7 +10,9 @@ from .poly import P
 from .program import Program
 
 GEN = '''
+import functools
 import numpy as np
+from scipy import linalg
 
 def merge_a(L, R):
     out = np.zeros((10, 3))
@@ -203,6 +205,113 @@ def gate_bad(self):
         raise ValueError("x")
     if not self.run_params:
         raise ValueError("y")
+
+
+# ---- rules whose expected count on the library is zero: one example that must match, one that must not
+def pick_ok(Y, idx):
+    idx = np.asarray(idx)
+    first, last = int(idx[0]), int(idx[-1])
+    if np.array_equal(idx, np.arange(first, last + 1)):
+        return Y[first:last + 1, :]
+    return Y[idx, :]
+
+
+def pick_bad(Y, idx):
+    idx = np.asarray(idx)
+    first, last = int(idx[0]), int(idx[-1])
+    if last - first + 1 == idx.size:
+        return Y[first:last + 1, :]
+    return Y[idx, :]
+
+
+def eig_ok(A, C, unc):
+    out = linalg.eig(A, left=True)
+    lam, vr = out[0], out[-1]
+    return np.dot(C, vr)
+
+
+def eig_bad(A, C, unc):
+    out = linalg.eig(A, left=True)
+    lam, vr = out[:2]
+    return np.dot(C, vr)
+
+
+def typed_bad(freq, sel):
+    s = np.atleast_1d(np.asarray(sel))
+    out = np.empty_like(s)
+    for i in range(s.size):
+        out[i] = freq[i]
+    return out
+
+
+def typed_ok(freq, sel):
+    s = np.atleast_1d(np.asarray(sel, dtype=float))
+    out = np.empty_like(s)
+    for i in range(s.size):
+        out[i] = freq[i]
+    return out
+
+
+@functools.lru_cache(maxsize=4)
+def _memo_table(n):
+    return np.arange(n) * 1.0
+
+
+def memo_bad(n, sign):
+    t = _memo_table(n)
+    if sign == 1:
+        np.negative(t, out=t)
+    return t.sum()
+
+
+def memo_ok(n, sign):
+    t = _memo_table(n)
+    if sign == 1:
+        t = np.negative(t)
+    return t.sum()
+
+
+def _near(tab, f, rtol=0.05):
+    rows = np.nanargmin(np.abs(tab - f), axis=0)
+    return rows, np.isclose(tab[rows], f, rtol=rtol)
+
+
+def opt_bad(tab, f, rtol=0.05):
+    rows, close = _near(tab, f)
+    return rows[close]
+
+
+def opt_ok(tab, f, rtol=0.05):
+    rows, _ = _near(tab, f)
+    rows2, close = _near(tab, f, rtol)
+    return rows, rows2[close]
+
+
+def _norm_lists(lists, n):
+    out = []
+    for l, k in zip(lists, n):
+        a = np.atleast_1d(np.asarray(l))
+        a = np.where(a < 0, a + k, a)
+        if np.unique(a).size != a.size:
+            raise ValueError("x")
+        out.append(a.tolist())
+    return out
+
+
+def _norm_lists_bad(lists, n):
+    out = []
+    for l, k in zip(lists, n):
+        a = np.atleast_1d(np.asarray(l))
+        out.append(np.unique(a).tolist())
+    return out
+
+
+def keep_order(lists, n):
+    return _norm_lists(lists, n)
+
+
+def lose_order(lists, n):
+    return _norm_lists_bad(lists, n)
 '''
 
 
@@ -295,6 +404,45 @@ def run(root):
             fails.append(f"lamdom: loop and vectorised spelling lower differently: {conds.get('sc_loop')} vs {conds.get('sc_vec')}")
         if conds.get("sc_vec_bad") and conds.get("sc_vec_bad") == conds.get("sc_loop"):
             fails.append("lamdom: broken vectorisation not distinguished")
+        # rules that match nothing in the library today: each must fire on its broken example and hold on the sound one
+        from .report import Run
+        from . import effects, seqsig
+
+        def verdicts(fn, quals):
+            r_ = Run("C00", "quick", 0)
+            r_.rule("R", "x", 0)
+            fn(prog.raw if fn is astq.repeated_option_rule else prog, r_, "R", ["pyoma2.functions.gen." + q_ for q_ in quals])
+            return [o.status for o in r_.obs]
+        for rule_fn, good, bad in ((astq.shortcut_rule, "pick_ok", "pick_bad"), (astq.inherited_dtype_rule, "typed_ok", "typed_bad"),
+                                   (astq.repeated_option_rule, "opt_ok", "opt_bad"), (effects.shared_state_rule, "memo_ok", "memo_bad")):
+            n += 1
+            vg, vb = verdicts(rule_fn, [good]), verdicts(rule_fn, [bad])
+            if "violated" in vg or "undecided" in vg:
+                fails.append(f"{rule_fn.__name__}: sound example {good} -> {vg}")
+            if "violated" not in vb:
+                fails.append(f"{rule_fn.__name__}: broken example {bad} -> {vb}")
+        n += 1
+        roles = {}
+        for name in ("eig_ok", "eig_bad"):
+            fi = prog.func("functions.gen." + name)
+            dot = [c for c in ast.walk(fi.node) if isinstance(c, ast.Call) and astq.src(c.func) == "np.dot"][0]
+            roles[name] = astq.eig_output_role(prog, fi, astq.expr_at(fi, dot, dot.args[1]))
+        if roles != {"eig_ok": "vr", "eig_bad": "vl"}:
+            fails.append(f"eig_output_role: {roles}")
+        n += 1
+        flows = {}
+        for name in ("keep_order", "lose_order"):
+            fi = prog.func("functions.gen." + name)
+            ret = [x for x in ast.walk(fi.node) if isinstance(x, ast.Return)][0]
+            flows[name] = seqsig.order_flow(prog, fi, ret.value, {"lists"})
+        if flows != {"keep_order": "kept", "lose_order": "lost"}:
+            fails.append(f"order_flow: {flows}")
+        # an either-or of different degrees (undecided branch) is not a sum
+        n += 1
+        from . import absint
+        j = absint.join(absint.D(0, g=2), absint.D(0, g=2, s=1))
+        if not absint.is_may(j) or absint.is_may(absint.add(absint.D(0, g=2), absint.D(0, g=2, s=1))):
+            fails.append(f"absint: join / sum of different degrees not told apart: {j!r}")
         # polynomial substitution under atoms
         n += 1
         from .poly import P_div
